@@ -28,7 +28,19 @@ def cases(draw, cls, max_n=150):
     cfg = draw(gc.config(cls))
     w = gc.warmup(cfg)
     n = draw(st.one_of(st.integers(1, w + 3), st.integers(w, max_n), st.integers(w, max_n)))
+    if draw(st.integers(0, 3)) == 0:
+        return _scheduled(draw, cfg, n)
     return {"cfg": cfg, "stream": draw(gs.streams(n, n, with_ts=False))}
+
+
+def _scheduled(draw, cfg, n):
+    """the same definition must hold on the collapsed candles of a timeframe fed by any append schedule"""
+    from hxv.lib import tf_seconds
+
+    tf = draw(st.sampled_from(("T5", "T5", "T1", "H1")))
+    n = min(n * 2, 240)
+    rows = draw(gs.streams(n, n, tf_s=tf_seconds(tf)))
+    return {"cfg": cfg, "stream": rows, "tf": tf, "fill": draw(st.booleans()), "preload": 0, "chunks": draw(gs.chunking(n))}
 
 
 def run_case(case) -> Result:
@@ -46,10 +58,23 @@ def run_case(case) -> Result:
     p = kw.get("period", 14)
     if any(all(b >= a for a, b in zip(closes[i : i + p], closes[i + 1 : i + p + 1])) for i in range(0, max(1, len(closes) - p))):
         labels.append("window_without_loss")
-    ind, v = nm.run_batch(cfg, rows)
+    if case.get("tf"):
+        from hxv.lib import raises, snap
+        from hxv.props import twin
+
+        labels.append("scheduled_timeframe")
+        try:
+            ind, _ = twin.run_incremental(case)
+            v = None
+            rows = [r[:6] for r in snap(ind.candles, readings=False)]  # the library's own collapsed candles (C03 judges those)
+        except Exception as exc:
+            ind, v = None, raises(exc)
+    else:
+        ind, v = nm.run_batch(cfg, rows)
     if v is not None:
         v.subject = cls
         return Result([v], False, labels)
+    closes, vols = nm.column(rows, "close"), nm.column(rows, "volume")
     col = nm.lift_rows(rows)
     h, l, c, vol = col["high"], col["low"], col["close"], col["volume"]
     x = col[kw.get("input_value", "close")]
